@@ -516,8 +516,17 @@ def same_td(a, b):
 def build_lazy(st):
     """a lazy stack whose dense form is build(st): stacked along dim 0 (needs a non-empty first batch dim)"""
     from tensordict import LazyStackedTensorDict
-    td = build((st[0], st[1], st[2], False))
-    parts = [t.clone() for t in td.unbind(0)]
+    from tensordict import TensorDict
+    bs, names, keys, _ = st
+    parts = []
+    for j in range(bs[0]):
+        m = TensorDict({}, batch_size=list(bs[1:]))
+        for i, k in enumerate(keys):
+            feat = (2,) if i % 2 else ()
+            shape = tuple(bs) + feat
+            full = (torch.arange(numel(shape), dtype=torch.int64) + 1000 * (i + 1)).reshape(shape)
+            m[k if len(k) > 1 else k[0]] = full[j].clone()
+        parts.append(m)
     lz = LazyStackedTensorDict(*parts, stack_dim=0)
     if st[3]:
         lz.lock_()
